@@ -121,7 +121,7 @@ Proof. vm_compute. repeat split; reflexivity. Qed.
 Definition path_after (o : Opts) (p : Prog) (tr : option prof) (c : cell) : cell :=
   let c := if o_module o then insert0 (o_cwd o) c else c in
   let c := match o_setup o with Some d => insert0 d c | None => c end in
-  let c := if o_module o then c else insert0 (o_script_dir o) c in
+  let c := if o_module o || negb (ran o) then c else insert0 (o_script_dir o) c in
   let c := if p_touch_path p && body_runs o p tr then append_cur "/prog-added" c else c in
   if p_rebind_path p && body_runs o p tr then rebind_with "/prog-rebound" c else c.
 
@@ -134,9 +134,15 @@ Definition tracing_after (cfg : Fixes) (o : Opts) (p : Prog) (n : Z) (tr : optio
   if leaks cfg o p && negb (is_some tr) then Some (Ext n) else tr.
 
 (* g: the decorator as the setup file left it (that is what main snapshots and hands back) *)
-Definition gp_after (cfg : Fixes) (g : GP) (n : Z) : GP :=
+(* is the decorator handed back at all? *)
+Definition handback_ok (cfg : Fixes) (o : Opts) : bool :=
+  if ran o then fx_profile_first cfg || negb (results_fail o) else fx_missing cfg.
+
+Definition gp_after (cfg : Fixes) (o : Opts) (g : GP) (n : Z) : GP :=
   let g1 := overwrite g (Some (Ext n)) in
-  if fx_profile cfg then set_enabled (f_enabled g) (set_profile (f_profile g) g1) else overwrite g1 None.
+  if handback_ok cfg o
+  then (if fx_profile cfg || negb (ran o) then set_enabled (f_enabled g) (set_profile (f_profile g) g1) else overwrite g1 None)
+  else g1.
 
 Lemma cur_assign cfg v c : cur (assign_argv cfg v c) = v.
 Proof. unfold assign_argv, cur. destruct (fx_argv_inplace cfg); cbn; apply upd_same. Qed.
@@ -144,7 +150,7 @@ Proof. unfold assign_argv, cur. destruct (fx_argv_inplace cfg); cbn; apply upd_s
 Definition gp_setup (o : Opts) (g : GP) : GP := uses_gp (setup_uses o) (o_new_argv o) g.
 
 Definition timers_after (cfg : Fixes) (o : Opts) (p : Prog) (t : Z) : Z :=
-  let timed := 0 <? o_interval o in
+  let timed := timed o in
   t + (if timed then (if fx_timer cfg then 1 else 2) else 0) - (if timed then 1 else 0)
   + (if timed then Z.of_nat (rt_leftover rearm_before_dump (p_sched p)) else 0).
 
@@ -153,12 +159,12 @@ Definition builtin_after (cfg : Fixes) (o : Opts) (b : option prof) (n : Z) : op
 
 Lemma main_body_eq cfg o p s :
   main_body cfg o p s
-  = (result_of (effective_outcome o p (builtin s) (tracing s)),
-     mkSt (argv_after cfg o p (tracing s) (argv s)) (path_after o p (tracing s) (path s)) (gp_after cfg (gp_setup o (gp s)) (next_prof s))
+  = (run_result o (effective_outcome o p (builtin s) (tracing s)),
+     mkSt (argv_after cfg o p (tracing s) (argv s)) (path_after o p (tracing s) (path s)) (gp_after cfg o (gp_setup o (gp s)) (next_prof s))
           (builtin_after cfg o (builtin s) (next_prof s)) (timers_after cfg o p (timers s)) (tracing_after cfg o p (next_prof s) (tracing s))
           (next_prof s + 1)).
 Proof.
-  unfold main_body, argv_after, path_after, gp_after, timers_after, builtin_after, tracing_after, gp_setup.
+  unfold main_body, argv_after, path_after, gp_after, handback_ok, timers_after, builtin_after, tracing_after, gp_setup.
   destruct s as [a pa g b t tr n]. cbn. rewrite cur_assign.
   destruct (fx_builtin cfg); reflexivity.
 Qed.
@@ -175,16 +181,16 @@ Definition wrapped_cell (cfg : Fixes) (r : result) (c0 c : cell) : cell :=
 (* the state after one call of main, in closed form *)
 Lemma main_eq cfg o p s :
   main cfg o p s
-  = (result_of (effective_outcome o p (builtin s) (tracing s)),
-     mkSt (wrapped_cell cfg (result_of (effective_outcome o p (builtin s) (tracing s))) (argv s) (argv_after cfg o p (tracing s) (argv s)))
-          (wrapped_cell cfg (result_of (effective_outcome o p (builtin s) (tracing s))) (path s) (path_after o p (tracing s) (path s)))
-          (gp_after cfg (gp_setup o (gp s)) (next_prof s))
+  = (run_result o (effective_outcome o p (builtin s) (tracing s)),
+     mkSt (wrapped_cell cfg (run_result o (effective_outcome o p (builtin s) (tracing s))) (argv s) (argv_after cfg o p (tracing s) (argv s)))
+          (wrapped_cell cfg (run_result o (effective_outcome o p (builtin s) (tracing s))) (path s) (path_after o p (tracing s) (path s)))
+          (gp_after cfg o (gp_setup o (gp s)) (next_prof s))
           (builtin_after cfg o (builtin s) (next_prof s)) (timers_after cfg o p (timers s)) (tracing_after cfg o p (next_prof s) (tracing s))
           (next_prof s + 1)).
 Proof.
   unfold main, with_restore. rewrite main_body_eq. unfold wrapped_cell, restoring, held.
   destruct s as [a pa g b t tr n]. cbn [fst snd argv path builtin tracing].
-  destruct (result_of (effective_outcome o p b tr)); cbn [restoring]; try reflexivity.
+  destruct (run_result o (effective_outcome o p b tr)); cbn [restoring]; try reflexivity.
   destruct (fx_finally cfg); reflexivity.
 Qed.
 
@@ -194,13 +200,13 @@ Global Opaque main main_body.
 (* ---- cells ----------------------------------------------------------------------------- *)
 Lemma path_after_cap o p tr c : cap (path_after o p tr c) = cap c.
 Proof.
-  unfold path_after. destruct (o_module o), (o_setup o), (p_touch_path p && body_runs o p tr), (p_rebind_path p && body_runs o p tr); reflexivity.
+  unfold path_after. destruct (o_module o || negb (ran o)), (o_module o), (o_setup o), (p_touch_path p && body_runs o p tr), (p_rebind_path p && body_runs o p tr); reflexivity.
 Qed.
 
 Lemma path_after_ref o p tr c : p_rebind_path p = false -> ref (path_after o p tr c) = ref c.
 Proof.
   intros H. unfold path_after. rewrite H.
-  destruct (o_module o), (o_setup o), (p_touch_path p && body_runs o p tr); reflexivity.
+  destruct (o_module o || negb (ran o)), (o_module o), (o_setup o), (p_touch_path p && body_runs o p tr); reflexivity.
 Qed.
 
 Lemma argv_after_cap cfg o p tr c : cap (argv_after cfg o p tr c) = cap c.
@@ -257,44 +263,50 @@ Lemma overwrite_fields g p :
 Proof. destruct g. cbn. auto. Qed.
 
 Lemma run_profile_fixed cfg o p s :
-  fx_profile cfg = true ->
+  fx_profile cfg = true -> handback_ok cfg o = true ->
   let s' := snd (main cfg o p s) in
   f_enabled (gp s') = f_enabled (gp_setup o (gp s)) /\ f_profile (gp s') = f_profile (gp_setup o (gp s)).
-Proof. intros H. rewrite main_eq. cbn [snd gp]. unfold gp_after. rewrite H. destruct (gp_setup o (gp s)). cbn. auto. Qed.
-
-(* the tree as it is: every run leaves the decorator "enabled" without a profiler *)
-Lemma run_profile_unfixed cfg o p s :
-  fx_profile cfg = false ->
-  let s' := snd (main cfg o p s) in
-  f_enabled (gp s') = Some true /\ f_profile (gp s') = None /\ usable (gp s') = false.
-Proof.
-  intros H. rewrite main_eq. cbn [snd gp]. unfold gp_after. rewrite H. rewrite usable_spec.
-  destruct (gp_setup o (gp s)). cbn. auto.
-Qed.
+Proof. intros H K. rewrite main_eq. cbn [snd gp]. unfold gp_after. rewrite H, K. destruct (gp_setup o (gp s)). cbn. auto. Qed.
 
 Lemma run_timers cfg o p s :
   (fx_timer cfg = true \/ o_interval o <= 0) ->
   timers (snd (main cfg o p s)) = timers s.
 Proof.
-  intros H. rewrite main_eq. cbn [snd timers]. unfold timers_after. rewrite rt_leftover_none.
-  destruct (0 <? o_interval o) eqn:T.
-  - destruct H as [H|H]; [rewrite H; lia|lia].
-  - lia.
+  intros H. rewrite main_eq. cbn [snd timers]. unfold timers_after, timed. rewrite rt_leftover_none.
+  destruct (0 <? o_interval o) eqn:T; destruct (ran o); cbn [andb]; try lia.
+  all: destruct H as [H|H]; [rewrite H; lia|lia].
 Qed.
 
 Lemma run_timers_leak cfg o p s :
-  fx_timer cfg = false -> 0 < o_interval o ->
+  fx_timer cfg = false -> 0 < o_interval o -> ran o = true ->
   timers (snd (main cfg o p s)) = timers s + 1.
 Proof.
-  intros H T. rewrite main_eq. cbn [snd timers]. unfold timers_after. rewrite H, rt_leftover_none.
-  destruct (0 <? o_interval o) eqn:E; lia.
+  intros H T R. rewrite main_eq. cbn [snd timers]. unfold timers_after, timed. rewrite H, R, rt_leftover_none.
+  destruct (0 <? o_interval o) eqn:E; cbn [andb]; lia.
 Qed.
 
-Lemma leaks_fixed cfg o p : fx_autoprof cfg = true -> fx_direct_enable cfg = true -> leaks cfg o p = false.
+(* every repair there is (the model's flags except the two that do not concern C19's clauses) *)
+Definition all_repaired (cfg : Fixes) : bool :=
+  fx_at_call cfg && fx_finally cfg && fx_profile cfg && fx_timer cfg && fx_autoprof cfg && fx_direct_enable cfg
+  && fx_profile_first cfg && fx_missing cfg && fx_untraced cfg && fx_cprofile_off cfg.
+
+Lemma all_repaired_spec cfg :
+  all_repaired cfg = true ->
+  fx_at_call cfg = true /\ fx_finally cfg = true /\ fx_profile cfg = true /\ fx_timer cfg = true
+  /\ fx_autoprof cfg = true /\ fx_direct_enable cfg = true /\ fx_profile_first cfg = true
+  /\ fx_missing cfg = true /\ fx_untraced cfg = true /\ fx_cprofile_off cfg = true.
+Proof. unfold all_repaired. rewrite !andb_true_iff. tauto. Qed.
+
+Lemma leaks_fixed cfg o p :
+  fx_autoprof cfg = true -> fx_direct_enable cfg = true -> fx_untraced cfg = true -> fx_cprofile_off cfg = true ->
+  leaks cfg o p = false.
 Proof.
-  intros A D. unfold leaks, cprofile_dump_disables. rewrite A, D.
-  destruct (o_line o), (o_builtin o), (p_leaves p), (registers o p); reflexivity.
+  intros A D U C. unfold leaks, cprofile_dump_disables. rewrite A, D, U, C.
+  destruct (o_script_missing o), (o_line o), (o_builtin o), (p_leaves p), (registers o p); reflexivity.
 Qed.
+
+Lemma handback_fixed cfg o : fx_profile_first cfg = true -> fx_missing cfg = true -> handback_ok cfg o = true.
+Proof. intros A B. unfold handback_ok. rewrite A, B. destruct (ran o); reflexivity. Qed.
 
 Lemma run_tracing cfg o p s :
   leaks cfg o p = false ->
@@ -367,27 +379,24 @@ Qed.
 Lemma gp_setup_silent o g : setup_uses o = [] -> gp_setup o g = g.
 Proof. intros H. unfold gp_setup. rewrite H. reflexivity. Qed.
 
+(* every run of the sequence hands the decorator back *)
+Definition all_handed (cfg : Fixes) (rs : list run) : bool := forallb (fun r => handback_ok cfg (fst r)) rs.
+
+Lemma all_handed_fixed cfg rs : fx_profile_first cfg = true -> fx_missing cfg = true -> all_handed cfg rs = true.
+Proof. intros A B. unfold all_handed. rewrite forallb_forall. intros r _. apply handback_fixed; assumption. Qed.
+
 Lemma runs_profile_fixed cfg rs : forall s,
-  fx_profile cfg = true -> setup_silent rs = true ->
+  fx_profile cfg = true -> all_handed cfg rs = true -> setup_silent rs = true ->
   let s' := exec_runs cfg s rs in
   f_enabled (gp s') = f_enabled (gp s) /\ f_profile (gp s') = f_profile (gp s).
 Proof.
-  induction rs as [|[o p] t IH]; intros s H Q; [cbn; auto|].
+  induction rs as [|[o p] t IH]; intros s H K Q; [cbn; auto|].
   cbn [setup_silent forallb fst] in Q. apply andb_prop in Q as [Q1 Q2].
+  cbn [all_handed forallb fst] in K. apply andb_prop in K as [K1 K2].
   assert (E : setup_uses o = []) by (destruct (setup_uses o); [reflexivity|discriminate]).
-  cbn [exec_runs]. destruct (run_profile_fixed cfg o p s H) as [A B].
+  cbn [exec_runs]. destruct (run_profile_fixed cfg o p s H K1) as [A B].
   rewrite (gp_setup_silent o _ E) in A, B.
-  destruct (IH (snd (main cfg o p s)) H Q2) as [A' B']. cbn zeta in *. rewrite A', B', A, B. auto.
-Qed.
-
-Lemma runs_profile_unfixed cfg rs : forall s,
-  fx_profile cfg = false -> rs <> [] ->
-  usable (gp (exec_runs cfg s rs)) = false.
-Proof.
-  induction rs as [|[o p] t IH]; intros s H Hne; [congruence|].
-  cbn [exec_runs]. destruct t as [|r t'].
-  - cbn [exec_runs]. apply (run_profile_unfixed cfg o p s H).
-  - apply IH; [exact H|discriminate].
+  destruct (IH (snd (main cfg o p s)) H K2 Q2) as [A' B']. cbn zeta in *. rewrite A', B', A, B. auto.
 Qed.
 
 Lemma runs_timers cfg rs : forall s,
@@ -405,9 +414,11 @@ Qed.
 (* no run of the sequence executes auto-profiling registration statements *)
 Definition no_leak (cfg : Fixes) (rs : list run) : bool := forallb (fun r => negb (leaks cfg (fst r) (snd r))) rs.
 
-Lemma no_leak_fixed cfg rs : fx_autoprof cfg = true -> fx_direct_enable cfg = true -> no_leak cfg rs = true.
+Lemma no_leak_fixed cfg rs :
+  fx_autoprof cfg = true -> fx_direct_enable cfg = true -> fx_untraced cfg = true -> fx_cprofile_off cfg = true ->
+  no_leak cfg rs = true.
 Proof.
-  intros A D. unfold no_leak. rewrite forallb_forall. intros r _. rewrite leaks_fixed by assumption. reflexivity.
+  intros A D U C. unfold no_leak. rewrite forallb_forall. intros r _. rewrite leaks_fixed by assumption. reflexivity.
 Qed.
 
 Lemma runs_tracing cfg rs : forall s,
@@ -448,10 +459,10 @@ Proof.
 Qed.
 
 Theorem profile_clause cfg s rs :
-  fx_profile cfg = true -> usable (gp s) = true -> setup_silent rs = true ->
+  fx_profile cfg = true -> all_handed cfg rs = true -> usable (gp s) = true -> setup_silent rs = true ->
   profile_ok s (exec_runs cfg s rs) = true.
 Proof.
-  intros H U Q. destruct (runs_profile_fixed cfg rs s H Q) as [A B]. cbn zeta in *.
+  intros H K U Q. destruct (runs_profile_fixed cfg rs s H K Q) as [A B]. cbn zeta in *.
   unfold profile_ok, same_decision. rewrite usable_spec in *. rewrite A, B, U.
   rewrite obool_eqb_refl, oprof_eqb_refl. reflexivity.
 Qed.
@@ -462,26 +473,26 @@ Theorem timers_clause cfg s rs :
 Proof. intros H. unfold timers_ok. rewrite runs_timers by exact H. apply Z.eqb_refl. Qed.
 
 (* ---- the repaired main satisfies all of C19 ------------------------------------------------ *)
-Theorem restores_if_fixed cfg :
-  fx_at_call cfg = true -> fx_finally cfg = true -> fx_profile cfg = true -> fx_timer cfg = true ->
-  fx_autoprof cfg = true -> fx_direct_enable cfg = true ->
-  C19_statement cfg.
+Theorem restores_if_fixed cfg : all_repaired cfg = true -> C19_statement cfg.
 Proof.
-  intros A F P T G D s rs U Q. unfold restored.
-  rewrite argv_clause, path_clause, profile_clause, tracing_clause, timers_clause; auto using no_leak_fixed.
+  intros R s rs U Q. destruct (all_repaired_spec cfg R) as (A & F & P & T & G & D & PF & M & UT & CO).
+  unfold restored.
+  rewrite argv_clause, path_clause, profile_clause, tracing_clause, timers_clause;
+    auto using no_leak_fixed, all_handed_fixed.
 Qed.
 
 (* ---- in-process runs are invisible to everything that happens around them ------------------------ *)
-Lemma run_gp_fixed cfg o p s : fx_profile cfg = true -> gp (snd (main cfg o p s)) = gp_setup o (gp s).
-Proof. intros H. rewrite main_eq. cbn [snd gp]. unfold gp_after. rewrite H. destruct (gp_setup o (gp s)). reflexivity. Qed.
+Lemma run_gp_fixed cfg o p s :
+  fx_profile cfg = true -> handback_ok cfg o = true -> gp (snd (main cfg o p s)) = gp_setup o (gp s).
+Proof. intros H K. rewrite main_eq. cbn [snd gp]. unfold gp_after. rewrite H, K. destruct (gp_setup o (gp s)). reflexivity. Qed.
 
 (* one run: nothing observable changes except what its setup file did to the decorator *)
 Lemma run_veq cfg o p s :
   fx_at_call cfg = true -> fx_finally cfg = true -> fx_profile cfg = true -> fx_timer cfg = true ->
-  leaks cfg o p = false ->
+  leaks cfg o p = false -> handback_ok cfg o = true ->
   veq (snd (main cfg o p s)) (set_gp (gp_setup o (gp s)) s).
 Proof.
-  intros A F P T G. unfold veq.
+  intros A F P T G K. unfold veq.
   assert (Hr : restoring cfg (fst (main cfg o p s)) = true)
     by (unfold restoring; rewrite F; destruct (fst (main cfg o p s)); reflexivity).
   destruct (run_argv cfg o p s Hr (or_introl A)) as (A1 & _).
@@ -489,7 +500,9 @@ Proof.
   cbn zeta in *. rewrite A1, P1, run_gp_fixed, run_tracing, run_timers; auto.
 Qed.
 
-Definition act_leaks (cfg : Fixes) (a : act) : bool := match a with ARun o p => leaks cfg o p | _ => false end.
+(* a run that leaves its profiler on, or does not hand the decorator back *)
+Definition act_leaks (cfg : Fixes) (a : act) : bool :=
+  match a with ARun o p => leaks cfg o p || negb (handback_ok cfg o) | _ => false end.
 Definition no_leaking_act (cfg : Fixes) (acts : list act) : bool := forallb (fun a => negb (act_leaks cfg a)) acts.
 
 (* Interleave kernprof.main runs with ordinary use of the decorator in any way: argv, path, trace
@@ -514,8 +527,8 @@ Proof.
   - unfold veq. destruct s; cbn; auto.
   - cbn [no_leaking_act forallb] in G. apply andb_prop in G as [G0 G']. apply negb_true_iff in G0.
     rewrite exec_acts_cons. destruct a as [o p|u].
-    + assert (Gr : leaks cfg o p = false) by exact G0.
-      pose proof (run_veq cfg o p s A F P T Gr) as R.
+    + cbn [act_leaks] in G0. apply orb_false_iff in G0 as [Gr Gk]. apply negb_false_iff in Gk.
+      pose proof (run_veq cfg o p s A F P T Gr Gk) as R.
       change (do_act cfg s (ARun o p)) with (snd (main cfg o p s)).
       remember (snd (main cfg o p s)) as s1 eqn:E. clear E.
       pose proof (IH s1 G') as I.
@@ -533,50 +546,42 @@ Proof.
 Qed.
 
 Corollary runs_invisible_current acts s :
+  no_leaking_act current acts = true ->
   veq (exec_acts current s acts) (set_gp (user_gp acts (cur (argv s)) (gp s)) s).
+Proof. intros G. apply runs_invisible; try reflexivity. exact G. Qed.
+
+
+
+(* ---- the tree as it is (after seven repairs; three defects left) ---------------------------------- *)
+Lemma handback_current o : handback_ok current o = ran o.
+Proof. unfold handback_ok, current. cbn. destruct (ran o); reflexivity. Qed.
+
+(* no run names a script / module that does not exist *)
+Definition scripts_found (rs : list run) : bool := forallb (fun r => ran (fst r)) rs.
+
+Lemma all_handed_current rs : scripts_found rs = true -> all_handed current rs = true.
 Proof.
-  apply runs_invisible; try reflexivity.
-  unfold no_leaking_act. rewrite forallb_forall. intros a _.
-  destruct a; [cbn [act_leaks]; rewrite leaks_fixed by reflexivity|]; reflexivity.
+  unfold scripts_found, all_handed. rewrite !forallb_forall. intros H r Hr. rewrite handback_current. apply H, Hr.
 Qed.
 
-
-
-(* ---- the tree as it is (after the six repairs) satisfies all of C19 ------------------------------- *)
-Theorem restores_current : C19_statement current.
-Proof. apply restores_if_fixed; reflexivity. Qed.
-
-Corollary restores_current_run s o p :
-  usable (gp s) = true -> setup_uses o = [] -> restored s (snd (main current o p s)) = true.
-Proof.
-  intros U Q. apply (restores_current s [(o, p)] U). cbn [setup_silent forallb fst]. rewrite Q. reflexivity.
-Qed.
-
-Lemma no_leaking_act_current acts : no_leaking_act current acts = true.
-Proof.
-  unfold no_leaking_act. rewrite forallb_forall. intros a _.
-  destruct a; [cbn [act_leaks]; rewrite leaks_fixed by reflexivity|]; reflexivity.
-Qed.
-
-
-(* for ALL sequences four clauses hold; the fifth (no profiler left enabled) holds when no run
-   executes auto-profiling registration statements (-l -p with a selection matching an import) *)
 Theorem restores_current_partial s rs :
   usable (gp s) = true -> setup_silent rs = true ->
   argv_ok s (exec_runs current s rs) = true /\ path_ok s (exec_runs current s rs) = true
-  /\ profile_ok s (exec_runs current s rs) = true /\ timers_ok s (exec_runs current s rs) = true
-  /\ (no_leak current rs = true -> restored s (exec_runs current s rs) = true).
+  /\ timers_ok s (exec_runs current s rs) = true
+  /\ (scripts_found rs = true -> profile_ok s (exec_runs current s rs) = true)
+  /\ (scripts_found rs = true -> no_leak current rs = true -> restored s (exec_runs current s rs) = true).
 Proof.
   intros U Q.
   assert (A : argv_ok s (exec_runs current s rs) = true) by (apply argv_clause; [reflexivity|left; reflexivity]).
   assert (P : path_ok s (exec_runs current s rs) = true) by (apply path_clause; [reflexivity|left; reflexivity]).
-  assert (G : profile_ok s (exec_runs current s rs) = true) by (apply profile_clause; [reflexivity|exact U|exact Q]).
   assert (T : timers_ok s (exec_runs current s rs) = true) by (apply timers_clause; left; reflexivity).
+  assert (G : scripts_found rs = true -> profile_ok s (exec_runs current s rs) = true).
+  { intros F. apply profile_clause; [reflexivity|apply all_handed_current; exact F|exact U|exact Q]. }
   repeat split; try assumption.
-  intros N. unfold restored. rewrite A, P, G, T, tracing_clause; [reflexivity|exact N].
+  intros F N. unfold restored. rewrite A, P, (G F), T, tracing_clause; [reflexivity|exact N].
 Qed.
 
-Definition opts_timed : Opts := mkOpts true false false None [] 1 ["prog.py"] "" "/T".
+Definition opts_timed : Opts := mkOpts true false false None [] 1 false false false ["prog.py"] "" "/T".
 
 (* ---- every one of the four repairs is necessary: a main lacking it violates its clause ---------- *)
 Lemma argv_needs_repair cfg :
@@ -585,8 +590,8 @@ Lemma argv_needs_repair cfg :
                 /\ argv_ok s (snd (main cfg o p s)) = false
                 /\ cur (argv (snd (main cfg o p s))) = o_new_argv o.
 Proof.
-  destruct cfg as [a b c d e f g h]. cbn. intros -> ->. exists st0, opts0, returns.
-  destruct c, d, e, f, g, h; vm_compute; repeat split; reflexivity.
+  destruct cfg as [a b c d e f g h i j k l]. cbn. intros -> ->. exists st0, opts0, returns.
+  destruct c, d; vm_compute; repeat split; reflexivity.
 Qed.
 
 Lemma path_needs_finally cfg :
@@ -596,8 +601,8 @@ Lemma path_needs_finally cfg :
                 /\ path_ok s (snd (main cfg o p s)) = false
                 /\ cur (path (snd (main cfg o p s))) = o_script_dir o :: cur (path s).
 Proof.
-  destruct cfg as [a b c d e f g h]. cbn. intros ->. exists st0, opts0, raises.
-  destruct a, b, d, e, f, g, h; vm_compute; repeat split; reflexivity.
+  destruct cfg as [a b c d e f g h i j k l]. cbn. intros ->. exists st0, opts0, raises.
+  destruct a, b; vm_compute; repeat split; reflexivity.
 Qed.
 
 Lemma profile_needs_repair cfg :
@@ -606,8 +611,8 @@ Lemma profile_needs_repair cfg :
                 /\ profile_ok s (snd (main cfg o p s)) = false
                 /\ decorate (gp (snd (main cfg o p s))) (fun _ => None) [] (Fn 0) = Err TypeError.
 Proof.
-  destruct cfg as [a b c d e f g h]. cbn. intros ->. exists st0, opts0, returns.
-  destruct a, b, c, e, f, g, h; vm_compute; repeat split; reflexivity.
+  destruct cfg as [a b c d e f g h i j k l]. cbn. intros ->. exists st0, opts0, returns.
+  destruct h; vm_compute; repeat split; reflexivity.
 Qed.
 
 Lemma timer_needs_repair cfg :
@@ -616,8 +621,8 @@ Lemma timer_needs_repair cfg :
                 /\ timers_ok s (snd (main cfg o p s)) = false
                 /\ timers (snd (main cfg o p s)) = timers s + 1.
 Proof.
-  destruct cfg as [a b c d e f g h]. cbn. intros ->. exists st0, opts_timed, returns.
-  destruct a, b, c, d, f, g, h; vm_compute; repeat split; reflexivity.
+  destruct cfg as [a b c d e f g h i j k l]. cbn. intros ->. exists st0, opts_timed, returns.
+  vm_compute; repeat split; reflexivity.
 Qed.
 
 (* auto-profiling: the registration statements enable the LineProfiler and nothing disables it.
@@ -630,8 +635,8 @@ Lemma autoprof_needs_balance cfg :
                 /\ tracing_ok s (snd (main cfg o p s)) = false
                 /\ tracing (snd (main cfg o p s)) = Some (Ext (next_prof s)).
 Proof.
-  destruct cfg as [a b c d e f g h]. cbn. intros ->. exists st0, opts0, registering.
-  destruct a, b, c, d, e, f, h; vm_compute; repeat split; reflexivity.
+  destruct cfg as [a b c d e f g h i j k l]. cbn. intros ->. exists st0, opts0, registering.
+  vm_compute; repeat split; reflexivity.
 Qed.
 
 (* a program that calls profile.enable() under -l and just ends: unless main switches the
@@ -644,8 +649,8 @@ Lemma direct_enable_needs_disable cfg :
                 /\ tracing_ok s (snd (main cfg o p s)) = false
                 /\ tracing (snd (main cfg o p s)) = Some (Ext (next_prof s)).
 Proof.
-  destruct cfg as [a b c d e f g h]. cbn. intros ->. exists st0, opts0, enabling.
-  destruct a, b, c, d, e, f, g; vm_compute; repeat split; reflexivity.
+  destruct cfg as [a b c d e f g h i j k l]. cbn. intros ->. exists st0, opts0, enabling.
+  vm_compute; repeat split; reflexivity.
 Qed.
 
 (* ... and the next in-process run then fails: its own profiler cannot be enabled *)
@@ -653,6 +658,72 @@ Lemma leak_breaks_next_run_unrepaired :
   fst (main unrepaired opts0 returns (snd (main unrepaired opts0 registering st0))) = Raised
   /\ fst (main unrepaired opts0 returns st0) = Returned.
 Proof. vm_compute. split; reflexivity. Qed.
+
+(* the decorator must be handed back BEFORE the results are written / shown: these can fail *)
+Definition opts_bad_outfile : Opts := mkOpts true false false None [] 0 true false false ["prog.py"; "a"] "" "/T".
+Lemma profile_needs_early_handback cfg :
+  fx_profile_first cfg = false -> fx_profile cfg = true ->
+  exists s o p, usable (gp s) = true /\ undecided (gp s) = true /\ o_dump_fails o = true
+                /\ fst (main cfg o p s) = Raised
+                /\ profile_ok s (snd (main cfg o p s)) = false
+                /\ gp (snd (main cfg o p s)) = mkGP (Some true) (Some (Ext (next_prof s))) "profile_output" 0 0.
+Proof.
+  destruct cfg as [a b c d e f g h i j k l]. cbn. intros -> ->. exists st0, opts_bad_outfile, returns.
+  destruct c; vm_compute; repeat split; reflexivity.
+Qed.
+
+(* a script that does not exist: SystemExit leaves main after the decorator was taken over *)
+Definition opts_missing : Opts := mkOpts true false false None [] 0 false false true ["missing.py"] "" "/T".
+Lemma missing_script_needs_handback cfg :
+  fx_missing cfg = false ->
+  exists s o p, usable (gp s) = true /\ undecided (gp s) = true /\ o_script_missing o = true
+                /\ fst (main cfg o p s) = Raised
+                /\ profile_ok s (snd (main cfg o p s)) = false
+                /\ gp (snd (main cfg o p s)) = mkGP (Some true) (Some (Ext (next_prof s))) "profile_output" 0 0.
+Proof.
+  destruct cfg as [a b c d e f g h i j k l]. cbn. intros ->. exists st0, opts_missing, returns.
+  destruct c; vm_compute; repeat split; reflexivity.
+Qed.
+
+(* -l, program: profile.enable(); sys.settrace(None) - the trace function is gone, the monitoring id is not *)
+Definition untracing : Prog := mkProg Return false false false false true LEnableUntraced 0 [].
+Lemma untraced_enable_needs_release cfg :
+  fx_untraced cfg = false ->
+  exists s o p, usable (gp s) = true /\ tracing s = None /\ p_leaves p = LEnableUntraced /\ o_line o = true
+                /\ fst (main cfg o p s) = Returned
+                /\ tracing_ok s (snd (main cfg o p s)) = false.
+Proof.
+  destruct cfg as [a b c d e f g h i j k l]. cbn. intros ->. exists st0, opts0, untracing.
+  vm_compute; repeat split; reflexivity.
+Qed.
+
+(* cProfile flavour, program leaves profile.enable() open, output file cannot be opened: dump_stats()
+   fails before create_stats() has switched the profiler off *)
+Definition opts_b_bad_outfile : Opts := mkOpts false true false None [] 0 true false false ["prog.py"] "" "/T".
+Lemma cprofile_needs_explicit_off cfg :
+  fx_cprofile_off cfg = false ->
+  exists s o p, usable (gp s) = true /\ tracing s = None /\ p_leaves p = LEnable /\ o_line o = false
+                /\ o_builtin o = true /\ o_dump_fails o = true
+                /\ tracing_ok s (snd (main cfg o p s)) = false.
+Proof.
+  destruct cfg as [a b c d e f g h i j k l]. cbn. intros ->. exists st0, opts_b_bad_outfile, enabling.
+  destruct c; vm_compute; repeat split; reflexivity.
+Qed.
+
+Lemma current_refuted : ~ C19_statement current.
+Proof.
+  intros H. specialize (H st0 [(opts_missing, returns)] eq_refl eq_refl). vm_compute in H. discriminate.
+Qed.
+
+(* which runs of the tree as it is do not come back clean *)
+Lemma current_leaks_iff o p :
+  leaks current o p
+  = ran o && (if o_line o then match p_leaves p with LEnableUntraced => true | _ => false end
+              else o_builtin o && match p_leaves p with LNone => false | _ => o_dump_fails o end).
+Proof.
+  unfold leaks, current, cprofile_dump_disables, ran. cbn.
+  destruct (o_script_missing o), (o_line o), (o_builtin o), (p_leaves p), (registers o p), (o_dump_fails o); reflexivity.
+Qed.
 
 (* ... and a direct enable() left on made the next in-process run raise (before fcd15c8) *)
 Lemma direct_enable_broke_next_run :
@@ -666,9 +737,9 @@ Proof.
 Qed.
 
 (* ---- non-vacuity ---------------------------------------------------------------------------- *)
-Definition opts_module : Opts := mkOpts true false true (Some "/T/setupd") [] 1 ["mod"; "x"] "" "/T".
+Definition opts_module : Opts := mkOpts true false true (Some "/T/setupd") [] 1 false false false ["mod"; "x"] "" "/T".
 (* a setup file that enables the explicit profiler and decorates something *)
-Definition opts_setup_uses : Opts := mkOpts true false false (Some "setupd") [UEnable; UDecorate] 0 ["prog.py"] "" "/T".
+Definition opts_setup_uses : Opts := mkOpts true false false (Some "setupd") [UEnable; UDecorate] 0 false false false ["prog.py"] "" "/T".
 
 Example nonvacuous :
   (* the hypothesis of the statement holds of a real-looking interpreter *)
@@ -779,26 +850,33 @@ Fixpoint spec_bits (prev : seen) (acts : list act) (os : list (seen * Z)) : Z :=
   end.
 
 (* what C14 needs of all this: the decorator object after runs interleaved with ordinary use *)
+Definition act_found (a : act) : bool := match a with ARun o _ => ran o | _ => true end.
+Definition acts_found (acts : list act) : bool := forallb act_found acts.
+
 Lemma decorator_under_kernprof acts : forall s,
+  acts_found acts = true ->
   gp (exec_acts current s acts) = user_gp acts (cur (argv s)) (gp s)
   /\ cur (argv (exec_acts current s acts)) = cur (argv s).
 Proof.
-  induction acts as [|a acts IH]; intros s; [split; reflexivity|].
+  induction acts as [|a acts IH]; intros s Fd; [split; reflexivity|].
+  cbn [acts_found forallb] in Fd. apply andb_prop in Fd as [Fa Fd].
   rewrite exec_acts_cons. destruct a as [o p|u].
-  - change (do_act current s (ARun o p)) with (snd (main current o p s)).
+  - change (do_act current s (ARun o p)) with (snd (main current o p s)). cbn [act_found] in Fa.
     assert (Hr : restoring current (fst (main current o p s)) = true) by (destruct (fst (main current o p s)); reflexivity).
     destruct (run_argv current o p s Hr (or_introl eq_refl)) as (A1 & _).
-    pose proof (run_gp_fixed current o p s eq_refl) as G1. cbn zeta in A1.
-    destruct (IH (snd (main current o p s))) as (I1 & I2).
+    assert (K : handback_ok current o = true) by (rewrite handback_current; exact Fa).
+    pose proof (run_gp_fixed current o p s eq_refl K) as G1. cbn zeta in A1.
+    destruct (IH (snd (main current o p s)) Fd) as (I1 & I2).
     cbn [user_gp]. rewrite I1, I2, A1, G1. unfold gp_setup. split; reflexivity.
   - change (do_act current s (AUse u)) with (do_uop u s).
-    destruct (IH (do_uop u s)) as (I1 & I2). cbn [user_gp]. rewrite I1, I2.
+    destruct (IH (do_uop u s) Fd) as (I1 & I2). cbn [user_gp]. rewrite I1, I2.
     destruct s; split; reflexivity.
 Qed.
 
 Corollary decorator_under_kernprof_gp acts s :
+  acts_found acts = true ->
   gp (exec_acts current s acts) = user_gp acts (cur (argv s)) (gp s).
-Proof. exact (proj1 (decorator_under_kernprof acts s)). Qed.
+Proof. intros F. exact (proj1 (decorator_under_kernprof acts s F)). Qed.
 
 Example decorator_under_kernprof_example :
   gp (exec_acts current st0 [ARun opts_setup_uses raises; AUse UDecorate])
